@@ -9,6 +9,10 @@ import gen_app
 
 FN_NAMES = ["connect", "build", "new_client", "load"]
 TY_NAMES = ["Client", "Pool", "Config"]
+# type names whose snake_case form is a Rust keyword, strict or reserved for future use: pavexc derives the field names
+# of the generated `ApplicationState` (and of the `Next` state structs) from them
+KEYWORD_TY_NAMES = ["Type", "Match", "Struct", "Move", "Final", "Override", "Yield", "Try", "Macro", "Virtual", "Abstract",
+                    "Box", "Priv", "Do", "Become", "Typeof", "Unsized", "Async", "Await", "Dyn", "Gen"]
 
 
 def plan(tier):
@@ -22,6 +26,11 @@ def make(rng, name):
     n_mod = rng.randrange(2, 5)
     fn = rng.choice(FN_NAMES)
     ty = rng.choice(TY_NAMES)
+    idx = int(name[1:]) if name[1:].isdigit() else 0
+    if idx % 2 == 1:
+        # every other application: keyword-like type names (chosen without consuming the random stream)
+        import zlib
+        ty = KEYWORD_TY_NAMES[zlib.crc32(name.encode()) % len(KEYWORD_TY_NAMES)]
     items, regs, params = [], [], []
     for k in range(n_mod):
         m = "abcde"[k]
